@@ -38,7 +38,10 @@ def gen_case(rng, idx, first=None):
             'pretrain': rng.random() < 0.25, 'adversarial': True, 'idx': idx,
             # when summary() / export() are called: after an eval forward (default); right after TRAINING-mode forwards with
             # Gumbel sampling (the sampled coefficients are noisy); after the coefficients were changed with no forward since
-            'seq': rng.choice(['eval', 'eval', 'gumbel-train', 'alpha-update']),
+            'seq': rng.choice(['eval', 'eval', 'gumbel-train', 'alpha-update', 'as-returned', 'as-returned']),
+            # mode of the float model handed to MPS(): every sub-module of the wrapper must come back in that mode.  'as-returned':
+            # handed in in eval mode and used exactly as MPS() returns it (no .eval()/.train() call before the comparison)
+            'handin': rng.choice(['eval', 'eval', 'train']),
             # export() called again (1-2 more times) on the same MPS object after coefficient / weight changes written in several ways
             'rounds': [{'what': rng.choice(['alpha', 'alpha', 'weight', 'both']), 'fwd': rng.random() < 0.4,
                         'how': rng.choice(['copy_', 'data=', 'data.copy_', 'data[i]=', 'optimizer', 'load_state_dict'])} for _ in range(rng.choice([0, 0, 1, 1, 2]))],
@@ -76,11 +79,14 @@ def run_case(c):
         m = G.build(nodes, c['seed'])
         ishape = G.input_shape(nodes)
         stage = 'convert'
+        handin_train = c.get('handin') == 'train' and c.get('seq') != 'as-returned'
+        m.train(handin_train)
         p = MPS(m, input_shape=ishape, qinfo=get_default_qinfo(tuple(c['wp']), tuple(c['ap'])),
                 temperature=c['T'], gumbel_softmax=c['gumbel'], hard_softmax=c['hard'],
                 disable_shared_quantizers=c['dsq'])
+        obs['mode_mismatch'] = sorted(n_ or '<root>' for n_, md_ in p.named_modules() if md_.training != handin_train)[:8]
         rng = random.Random(c['aseed'])
-        cp = c.get('copy')
+        cp = c.get('copy') if c.get('seq') != 'as-returned' else None
         orig = orig_state = None
         if cp:
             # snapshot of the MPS model (copy.deepcopy / pickle round trip) taken when its sampled coefficients are NOT
@@ -140,6 +146,8 @@ def run_case(c):
             with torch.no_grad():
                 p(x)
                 p(x)
+        elif seq == 'as-returned':
+            pass            # no mode call at all: the wrapper is used as MPS() returned it
         else:
             if c['pretrain']:
                 p.train()
@@ -154,7 +162,8 @@ def run_case(c):
         summ = p.summary()
         stage = 'export'
         e = p.export()
-        p.eval()
+        if seq != 'as-returned':
+            p.eval()
         with torch.no_grad():
             y = p(x)
         stage = 'export-forward'
@@ -336,6 +345,9 @@ def oracle(c, o):
         if lp['same_as_first'] is False:
             out.append(('mps-eval-not-repeatable', 'MPS.eval()(x) on the same batch differs between pass 1 and pass %d' % lp['pass']))
             break
+    if o.get('mode_mismatch'):
+        out.append(('mps-wrapper-mode-differs-from-model-handed-in', 'float model handed to MPS() in %s mode, but these sub-modules of the wrapper have the other mode: %r'
+                    % ('train' if (c.get('handin') == 'train' and c.get('seq') != 'as-returned') else 'eval', o['mode_mismatch'])))
     if o.get('orig_changed') or o.get('copy_shares_params'):
         out.append(('copy-of-mps-model-not-independent', 'working with a %s of the MPS model changed the original: %r (shared parameters: %r)'
                     % (c['copy']['how'], o.get('orig_changed'), o.get('copy_shares_params'))))
@@ -368,7 +380,7 @@ def oracle(c, o):
                 am = max(range(len(qi['alpha'])), key=lambda j: qi['alpha'][j])
                 if s[key] != qi['prec'][am]:
                     out.append(('summary-differs-from-argmax-alpha:' + slot, 'layer %s: summary() %s=%r but the arg-max of its selection coefficients %r picks %r bits (summary()/export() called %s)'
-                                % (ent['name'], key, s[key], qi['alpha'], qi['prec'][am], {'eval': 'after an eval forward', 'gumbel-train': 'right after training-mode Gumbel forwards', 'alpha-update': 'after a coefficient update, no forward since'}[c.get('seq', 'eval')])))
+                                % (ent['name'], key, s[key], qi['alpha'], qi['prec'][am], {'eval': 'after an eval forward', 'as-returned': 'on the wrapper as returned by MPS() for a model in eval mode', 'gumbel-train': 'right after training-mode Gumbel forwards', 'alpha-update': 'after a coefficient update, no forward since'}[c.get('seq', 'eval')])))
     for i, pr in o['producer'].items():
         pi = name2i.get(pr['producer'])
         if pi is not None and 'in_precision' in o['layers'][i]['summary'] and o['layers'][i]['summary']['in_precision'] != o['layers'][pi]['summary'].get('out_precision'):
@@ -447,7 +459,7 @@ def run(ctx):
     built = ctx.build()
     ctx.rule = ('grammar networks of vlib/mps_gen.py (1..4 blocks of conv / conv-BN / depthwise / residual add of (x, conv x), of two convs, of a depthwise chain with its source / pooling, head pool-flatten-linear(-BN)-linear; '
                 'depthwise / residual blocks forced first in half of the cases, all conv biases on in 60%) x precision tuples from {2,4,8} (1..3, any order) for activations and weights x random alpha with arg-max margin >= 0.05 '
-                'x temperature in [0.05,20] (both ends forced) x gumbel/hard/disable_shared_quantizers/pre-training-forward flags x conv padding_mode {zeros, circular, reflect, replicate} with padding > 0, paddings int / same / valid, same-padding with even and mixed kernels (2, 4, (2,3), (3,2)) x dilation 1..3 (also inside residual adds) x model under test {the MPS model, a copy.deepcopy / pickle round trip of it taken after construction / in training mode / after a coefficient change, coefficients of the copy changed afterwards; original must stay untouched} x export() repeated 0-2 more times on the same object after coefficient / weight changes written via copy_, .data=, .data.copy_, .data[i]=, an optimizer step or load_state_dict x moment of summary()+export() {after an eval forward, right after training-mode Gumbel forwards, after a coefficient update without forward} x schedule of 2-3 further forward passes (same / new batch, mode toggles) through the same exported model; where a layer input quantizer is not its producer output quantizer object the two are made to select different precisions. '
+                'x temperature in [0.05,20] (both ends forced) x gumbel/hard/disable_shared_quantizers/pre-training-forward flags x conv padding_mode {zeros, circular, reflect, replicate} with padding > 0, paddings int / same / valid, same-padding with even and mixed kernels (2, 4, (2,3), (3,2)) x dilation 1..3 (also inside residual adds) x model under test {the MPS model, a copy.deepcopy / pickle round trip of it taken after construction / in training mode / after a coefficient change, coefficients of the copy changed afterwards; original must stay untouched} x export() repeated 0-2 more times on the same object after coefficient / weight changes written via copy_, .data=, .data.copy_, .data[i]=, an optimizer step or load_state_dict x mode of the float model handed in {eval, train}: every sub-module must come back in that mode x moment of summary()+export() {on the wrapper exactly as returned for an eval-mode model (no .eval()/.train() call), after an eval forward, right after training-mode Gumbel forwards, after a coefficient update without forward} x schedule of 2-3 further forward passes (same / new batch, mode toggles) through the same exported model; where a layer input quantizer is not its producer output quantizer object the two are made to select different precisions. '
                 'one case = one network with one coefficient assignment; distinct by (architecture, precisions, selected indices); non-trivial = at least two candidate precisions somewhere and at least 2 searchable layers')
     n = 260 if ctx.quick else 2600
     cases = []
